@@ -141,7 +141,7 @@ fn serialize_types(files: &HashSet<RepositoryType>) -> String {
     // HashSet iteration order differs between processes; sort for a stable output
     let mut types = files.into_iter().map(|rt| rt.to_string()).collect::<Vec<String>>();
     types.sort();
-    types.join("\n")
+    types.join(" ")
 }
 
 fn deserialize_uris(text: &str) -> Result<Vec<Url>, String> { // TODO: bad error type
